@@ -61,7 +61,7 @@ def gen_ctl(rng, lang: str, depth: int, in_async: bool, common: bool):
         fin = sub() if (not hs or rng.random() < 0.4) else []
         return {"try": [sub(), hs, [], fin]}
     if kind == "match":
-        return {"match": [[sub() for _ in range(rng.choice([1, 2, 3]))]]}
+        return {"match": [[sub() for _ in range(rng.choice([1, 2, 3]))], sub() if rng.random() < 0.5 else []]}
     return {"clos": [sub()]}
 
 
@@ -85,9 +85,9 @@ def gen_file(rng, lang: str, idx: int, common: bool = False) -> dict:
 
 def all_small_bodies(lang: str, max_nodes: int):
     """exhaustive: every skeleton with at most `max_nodes` constructs/statements (thorough tier)"""
-    kinds = {"py": ["if", "ifelse", "elif", "for", "while", "with", "tryexc", "tryfin", "match"],
-             "ts": ["if", "ifelse", "for", "while", "forIn", "forOf", "doWhile", "trycatch", "tryfin", "match"],
-             "rs": ["if", "ifelse", "for", "while", "loop", "match", "clos"]}[lang]
+    kinds = {"py": ["if", "ifelse", "elif", "for", "while", "with", "tryexc", "tryfin", "match", "matchd"],
+             "ts": ["if", "ifelse", "for", "while", "forIn", "forOf", "doWhile", "trycatch", "tryfin", "match", "matchd"],
+             "rs": ["if", "ifelse", "for", "while", "loop", "match", "matchd", "clos"]}[lang]
 
     def mk(kind, inner):
         if kind == "if":
@@ -107,7 +107,9 @@ def all_small_bodies(lang: str, max_nodes: int):
         if kind == "tryfin":
             return {"try": [inner, [], [], ["s"]]}
         if kind == "match":
-            return {"match": [[["s"], inner]]}
+            return {"match": [[["s"], inner], []]}
+        if kind == "matchd":
+            return {"match": [[["s"]], inner]}
         return {"clos": [inner]}
 
     def bodies(n):
@@ -329,6 +331,89 @@ def cross_language(rng, n: int, res: core.Result):
         res.bump("cross_language_triples")
 
 
+LANGKEY = {"py": "python", "ts": "typescript", "rs": "rust"}
+
+
+def impl_project(args) -> dict:
+    """several languages in one run, per-language limits in .thailint.yaml"""
+    idx, files, cfg, root = args
+    import yaml
+    core._reset_singletons()
+    proj = Path(root) / f"prj{idx}"
+    proj.mkdir(parents=True)
+    out = {"errors": []}
+    try:
+        for name, text in files:
+            (proj / name).write_text(text + "\n")
+        (proj / ".thailint.yaml").write_text(yaml.safe_dump({"nesting": cfg}))
+        code, stdout = core.run_cli(["nesting", "--format", "json", "."], cwd=proj)
+        vs = core.violations_json(stdout)
+        out["exit"] = code
+        out["vs"] = None if vs is None else sorted([v["file_path"], v["line"], v["message"]] for v in vs)
+        if vs is None:
+            out["errors"].append(stdout[:300])
+    except Exception as exc:  # noqa: BLE001
+        out["errors"].append(f"{type(exc).__name__}: {exc}")
+    finally:
+        shutil.rmtree(proj, ignore_errors=True)
+    return out
+
+
+def project_mode(rng, n: int, res: core.Result):
+    """one run over a directory holding Python, TypeScript and Rust files, with language-specific
+    limits in the config: each file must be judged with the limit of *its* language, whatever the
+    order in which the files are met"""
+    reqs, metas = [], []
+    for i in range(n):
+        base = rng.randint(1, 6)
+        cfg = {"max_nesting_depth": base}
+        eff = {}
+        for lang in ("py", "ts", "rs"):
+            if rng.random() < 0.7:
+                cfg[LANGKEY[lang]] = {"max_nesting_depth": rng.randint(1, 6)}
+            eff[lang] = cfg.get(LANGKEY[lang], {}).get("max_nesting_depth", base)
+        order = ["py", "ts", "rs"]
+        rng.shuffle(order)
+        files = []
+        for k, lang in enumerate(order):   # os.walk order is directory order; vary names so every order occurs
+            c = gen_file(rng, lang, 200000 + i * 10 + k)
+            c["limit"] = eff[lang]
+            reqs.append(c)
+            files.append((f"{'abc'[k]}_{i}.{EXT[lang]}", lang))
+        metas.append((cfg, eff, files))
+    drv = core.Driver()
+    leans = drv.batch(reqs)
+    drv.close()
+    root = core.scratch_dir("c01p")
+    work = []
+    for i, (cfg, eff, files) in enumerate(metas):
+        work.append((i, [(name, leans[3 * i + k]["text"]) for k, (name, _l) in enumerate(files)], cfg, str(root)))
+    try:
+        with mp.Pool(16) as pool:
+            impls = pool.map(impl_project, work, chunksize=2)
+    finally:
+        shutil.rmtree(root, ignore_errors=True)
+    for i, ((cfg, eff, files), im) in enumerate(zip(metas, impls)):
+        res.evaluations += 1
+        res.bump("project_mode_runs")
+        exp_m, exp_s = [], []
+        for k, (name, lang) in enumerate(files):
+            for f in leans[3 * i + k]["fns"]:
+                if f["reported"]:
+                    exp_m.append([name, f["line"], msg(f["name"], f["depth"])])
+                if f["specReported"]:
+                    exp_s.append([name, f["line"], msg(f["name"], f["doc"])])
+        exp_m.sort()
+        exp_s.sort()
+        if len(set(eff.values())) > 1:
+            res.nontrivial.add(core.canon({"cfg": cfg, "files": [reqs[3 * i + k]["fns"] for k in range(3)]}))
+        if im["errors"] or im["vs"] != exp_m or im["exit"] != (1 if exp_m else 0):
+            res.disagreements.append(core.Disagreement(
+                case={"mode": "project", "config": {"nesting": cfg}, "files": work[i][1]}, impl=im, model=exp_m, spec=exp_s,
+                property_fails=bool(im["errors"]) or im["vs"] != exp_s,
+                note=f"multi-language run with per-language limits {eff}: implementation {im.get('vs')} (exit {im.get('exit')}), model {exp_m}"[:3000]))
+
+
 def run(tier: str, seed: int, st: core.ProofStatus) -> core.Result:
     res = core.Result()
     res.rule = ("seeded random control skeletons (1-6 functions per file, plain/method/arrow/async wrappers, all "
@@ -352,6 +437,7 @@ def run(tier: str, seed: int, st: core.ProofStatus) -> core.Result:
         res.notes.append("thorough: plus every chain skeleton of <= 4 nested constructs over the language's construct alphabet")
     evaluate(cases, rng, res, full_sweep=(tier == "thorough"))
     cross_language(rng, 25 if tier == "quick" else 400, res)
+    project_mode(rng, 40 if tier == "quick" else 600, res)
     res.assumptions += ["CPython ast / tree-sitter grammars are trusted; their output on rendered skeletons is compared with the model's shape functions",
                         "expressions never contain control flow (comprehensions, lambdas, ternaries are outside the program family)"]
     return res
@@ -363,6 +449,16 @@ def replay(path: str, st: core.ProofStatus) -> int:
     if not case:
         print("replay file has no case (names a proof obligation only):", json.dumps(data.get("no_longer_checks")))
         return 1
+    if case.get("mode") == "project":
+        root = core.scratch_dir("c01r")
+        im = impl_project((0, [tuple(x) for x in case["files"]], case["config"]["nesting"], str(root)))
+        shutil.rmtree(root, ignore_errors=True)
+        print(json.dumps({"impl": im, "model": data.get("model"), "spec": data.get("spec")}, indent=1)[:3000])
+        if im["errors"] or im["vs"] != data.get("model"):
+            print(f"VIOLATION property={PROP} replay={path}")
+            return 1
+        print("replay: implementation agrees with the model on this case")
+        return 0
     res = core.Result()
     c = {k: case[k] for k in ("prop", "lang", "fns")}
     rng = core.sub_rng(0, "replay")
